@@ -5,6 +5,8 @@
 // mutation sweep that was evaluated against the implementation only; every
 // accepted mutant and a seeded sample of the rejected ones are also printed as
 // full cases so that the Coq model is evaluated on them.
+//
+// The usage-pattern audit of the API (round 3) is the block comment below the imports.
 package main
 
 import (
@@ -16,6 +18,101 @@ import (
 
 	"verifharness/hx"
 )
+
+/*
+USAGE-PATTERN AUDIT (round 3).  Every exported function / method / type of the
+anchored packages (signer, jwt, identity, signin/authgate, roles), every
+caller-supplied callback or interface with the result shapes it can legally
+return, every piece of state with its lifetime, every option / mode flag; and
+for each the stream(s) that exercise it, with object reuse (F = fresh object
+per case, L = one long-lived object across many calls), sequencing (R = the
+call repeated after a refusal / error) and concurrency (C).
+
+API                                   | state / lifetime                     | streams (shapes, reuse, sequencing)
+--------------------------------------+--------------------------------------+----------------------------------------------------------
+signer.New(key) / New(nil)            | key, per object; nil => random key    | signer F; reuse-signer L,R; usage-signer (two New(nil)
+                                      |                                      |   objects, empty key, zero key never accept each other)
+Signer.Sign / SignHex                 | none (buffer per call)               | signer F; reuse-signer L (same data twice => same token;
+                                      |                                      |   caller reuses its input buffer after signing)
+Signer.Check / CheckHex               | none; returned data aliases input    | signer + sweep:blob/hex (every bit, prefix, extension);
+                                      |                                      |   reuse-signer L,R (accept, refuse, accept; concat, splice,
+                                      |                                      |   hex-as-blob); usage-concurrent C
+  thresholds: len < 32 (sha256.Size)  |                                      | prefixes 0..n-1, empty payload (len = 32), 31-byte blobs
+Signer.SignJSON/SignHexJSON/CheckJSON/| none                                 | signer(json) F: values, bit flip, extension, upper case
+  CheckHexJSON                        |                                      |
+Signer.NewSignedChallenge(t, rand)    | rand: io.Reader (n,nil)              | challenge F; usage-realclock (Challenger without Now)
+Signer.CheckChallenge(bs, now, w)     | none                                 | challenge F + sweep:challenge; boundaries t, t+w (closed)
+signer.NewSessions(key, ttl)          | key, ttl, refreshTTL per object;     | session F; reuse-session L,R; ttl 0 / negative / 1 ns
+  Sessions.TimeFunc (nil | set)       |   TimeFunc nil => time.Now           | set: all streams; nil: usage-realclock
+Sessions.New(data, ttl)               | none                                 | session F (ttl 0, <0, =max, >max, 2^62; data nil/empty);
+                                      |                                      |   reuse-session L (two sessions of one object)
+Sessions.Check                        | none                                 | session F + sweep:session; expiry -2..+2 ns; reuse-session
+                                      |                                      |   L,R (expired, clock moved back, other session alive, other
+                                      |                                      |   object / other maximum over the same key); C
+  thresholds: len(bs) < 8             |                                      | signed blobs of 0..8 bytes
+Sessions.NewJSON / CheckJSON          | none                                 | reuse-session L: JSON value, expiry, payload not JSON,
+                                      |                                      |   empty payload, unmarshalable value, sweep:session-json
+Sessions.NewState / CheckState        | none                                 | reuse-session L: expiry, session with payload is not a
+                                      |                                      |   state, short blobs, sweep:session-state; usage-realclock
+Sessions.NeedRefresh                  | refreshTTL per object                | authgate (fifth of lifetime -1/0/+1 ns); usage-gate-http
+signer.NewTimeSigner(key, w) (w<0)    | key, window per object; TimeFunc     | timetoken F (w<0, 0, 1 ns); reuse-timetoken L,R
+TimeSigner.Token / Check, SignTime    | none                                 | timetoken F + sweep:timetoken; -w-1..w+1; reuse-timetoken L
+                                      |                                      |   (two tokens, token from the future, boundary, clock back);
+  thresholds: len(bs) != 8            |                                      |   7- and 9..16-byte blobs; SignTime: usage-realclock; C
+signer.NewRSATimeSigner(k, w) (w<0)   | key, window per object; TimeFunc     | rsatime F; reuse-rsatime L,R
+RSATimeSigner.Check(block)            | none                                 | rsatime F: every bit of Data/Hash/Sig, prefixes, extensions,
+                                      |                                      |   rehash, other key; reuse-rsatime L: fields exchanged inside
+  thresholds: len(Data) < 8           |                                      |   a block and between two genuine blocks, nil fields, other
+                                      |                                      |   key claiming this key id
+RSASignTime / CheckRSATimeSignature   | real clock only                      | usage-realclock (window 1 h / 1 min / 0 / negative, other
+                                      |                                      |   key, signature bit)
+jwt.Signer (caller-supplied)          | Header: (h,nil) (nil,err) (h,err)    | usage-jwt-signer: all five shapes; a token is issued only
+                                      | Sign: (sig,nil) (nil,err) (sig,err)  |   when neither call returned an error
+jwt.Verifier (caller-supplied)        | nil | returns nil | returns error    | usage-verifier: all three x time boundaries x malformed
+                                      |                                      |   texts; what the verifier is shown (text, signature,
+                                      |                                      |   instant, header) and how often
+jwt.EncodeAndSign, HS256.Sign/Header  | HS256: key, pinned header per object | jwt F; reuse-jwt L (two tokens; Header() result edited by
+                                      |                                      |   the caller; same claims twice => same token)
+jwt.Decode / DecodeAndVerify / Verify | none                                 | jwt F + sweep:jwt-hs (bits, prefixes, extensions, base64
+  HS256.Verify, checkHeader           |                                      |   variants, header rewrites, part counts); reuse-jwt L,R
+  thresholds: len(parts) != 3         |                                      |   (splice of two tokens' parts; other kid object); C
+jwt.CheckTime                         | none                                 | jwttime: +-1 ns / +-1 s at both ends, int64 wrap
+jwt.CheckClaimSet(claims, tmpl)       | none; nil claims / nil template      | claims: 2^5 templates x 8 claim sets, scope words
+ClaimSet.Extra / ExtraString          | none                                 | jwt (extra fields signed and parsed); not a verification path
+identity.Card (caller-supplied)       | (id,nil) (nil,err) (id,err) (nil,nil)| jwt-rs/kidmatrix: (id,nil); usage-card: all four, directly,
+                                      |                                      |   behind authgate.Exchange, and as a simpleCore whose store
+                                      |                                      |   fails / fills the value and fails
+identity.SimpleStore (caller-supplied)| Load: ok | err | filled + err         | coresign: ok; usage-card: all three (verify, Sign, SignSelf)
+identity.NewJWTVerifier(card).Verify  | card reference per object            | jwt-rs F + sweep:jwt-rs; kidmatrix; usage-rotation L (card
+  FindPublicKey, publicKeyValid       |                                      |   edited in place between calls: key expired / removed /
+                                      |                                      |   replaced / shadowed / none / restored)
+identity.NewSimpleCore(store, now)    | store contents (on "disk"); now nil  | coresign F (key choice x instants); usage-rotation (RemoveKey
+  Sign / Identity / RemoveKey / Init  |                                      |   then verify old and new tokens); usage-realclock (now nil)
+identity.SignToken / SignSelf         | none                                 | jwt-rs, exchange; usage-realclock
+identity.VerifySelfToken              | none                                 | jwt-rs (self) F + sweep; usage-card; usage-rotation
+authgate.New(Config)                  | Sessions | SessionKey+SessionLifeTime | authgate / exchange: Sessions; usage-realclock: key +
+  Config.Check (caller-supplied)      |   (<=0 => a week); Check nil | set    |   lifetime (1 h, 0, negative; 400-day request capped);
+                                      | Check: (d,l>=0,nil) (nil,l<0,nil)    |   usage-gate: five callback shapes x five tokens, whom the
+                                      |        (d,l,err) (nil,0,err)         |   callback is asked about, result on error
+Gate.CheckToken / Token               | none beyond Sessions                 | authgate L (one gate per token); usage-gate L,R
+Gate.Check / CheckAndSetup / Setup /  | request, response cookies            | usage-gate-http: bearer, cookie, both, neither, wrong scheme,
+  SetupCookie / ClearCookie           |                                      |   expired, refresh (only cookies, same user, capped lifetime)
+authgate.NewExchange / Exchange       | card, tokener, Now nil | set          | exchange F + sweep:exchange; usage-card; usage-realclock
+authgate.NewChallenger / Serve / Check| signer, Now nil | set, Window <= 0   | challenge (window default 30 s); usage-realclock
+roles.New / NewWithName               | KV table (per store), host,          | passcode F; passcode-roles L (two roles interleaved on one
+  SetPassCodeExpiry / SetHostDomain   |   passCodeExpiry per object          |   object; role removed and created again)
+Roles.NewPassCode / SetupWithCode     | passCode{Tried,Consumed,Valid,Expire}| passcode + passcode-raw: histories, window +-1 ns, 9..12 and
+  Disable / Enable / Remove / New     |   stored with the role (KV record)   |   30 wrong codes, out-of-window attempts, records without
+  thresholds: Tried > 10              |                                      |   window, wrapping counter; passcode-concurrent C: 8 right
+                                      |                                      |   codes, re-issue racing, 11/30 wrong codes racing, wrong
+                                      |                                      |   codes racing with the right one
+Roles.VerifySelfToken / roles.Exchange| role record; real clock (Exchange)   | roles; usage-realclock (roles.Exchange)
+Roles.GetPassCode / List / Get        | read-only views                      | not a verification path; not exercised
+
+Not covered and why: a nil *SignedRSABlock, a typed-nil Verifier and a Tokener
+returning nil are caller errors that panic before any credential is looked at;
+RemoteCard (network) is outside the anchors.
+*/
 
 // Mac is one entry of the HMAC table handed to the model: the HMAC-SHA256,
 // computed here with crypto/hmac, of exactly the data part the check queries.
@@ -60,6 +157,7 @@ type PassOp struct {
 	T     string `json:"t,omitempty"`     // instant (ns)
 	Claim int    `json:"claim,omitempty"` // try: 0 empty, n>0 code of the n-th issue, -1 a wrong code
 	ID    int    `json:"id,omitempty"`    // try: identity tag offered
+	Stale int    `json:"stale,omitempty"` // try: offer the n-th code of a removed role / of another role (Claim is then negative)
 }
 
 // PassState is the stored record after an operation.
@@ -80,6 +178,29 @@ type PassState struct {
 type PassRes struct {
 	R  int       `json:"r"` // result enum, see passErr
 	St PassState `json:"st"`
+}
+
+// Facts is what the harness knows about a credential it presents in an
+// implementation-only case; the oracle in checks/c16.py reads the property off
+// them: accepted only if all hold.
+type Facts struct {
+	Genuine bool   `json:"genuine"`           // bit-for-bit what was issued under the verifying key
+	InTime  bool   `json:"intime"`            // presented inside its validity window
+	Consent bool   `json:"consent"`           // every caller-supplied callback answered without error
+	Payload string `json:"payload,omitempty"` // hex: what was signed (compared when accepted)
+}
+
+// CBShape is the answer of a Gate's check callback.
+type CBShape struct {
+	Lvl string `json:"lvl"`
+	Err bool   `json:"err"`
+}
+
+// Pair is an auxiliary observation with the value the property text implies.
+type Pair struct {
+	Name string `json:"name"`
+	Got  string `json:"got"`
+	Want string `json:"want"`
 }
 
 // Mut says how a token was derived from an issued one.
@@ -141,12 +262,24 @@ type Case struct {
 	Mut    *Mut       `json:"mut,omitempty"`
 	Obs    Obs        `json:"obs"`
 
+	// usage-pattern streams (usage.go)
+	Facts  *Facts   `json:"facts,omitempty"`
+	Pairs  []Pair   `json:"pairs,omitempty"`
+	JSONOK bool     `json:"jsonok,omitempty"` // sessjson: encoding/json accepts the signed payload
+	VRej   bool     `json:"vrej,omitempty"`   // jwtany: the caller's verifier returns an error
+	CB     *CBShape `json:"cb,omitempty"`     // gatecb: what the caller's check callback answers
+	NoCard bool     `json:"nocard,omitempty"` // jwtrsfetch: the card's Identity call returned an error
+
 	// sweep summary
 	Class    string `json:"class,omitempty"`
 	N        int    `json:"n,omitempty"`
 	Accepted int    `json:"accepted,omitempty"`
 	TokID    int    `json:"tokid,omitempty"`
 	Note     string `json:"note,omitempty"`
+
+	// History: for cases that are one step of a history on a long-lived
+	// object, the steps up to and including this one.
+	History []string `json:"history,omitempty"`
 }
 
 type run struct {
@@ -154,7 +287,8 @@ type run struct {
 	out   *hx.Out
 	i     int
 	ntok  int
-	scale int // size multiplier (1 quick)
+	scale int      // size multiplier (1 quick)
+	hist  []string // when set: the history the next emitted verification case is the last step of
 }
 
 func (r *run) emit(c *Case) {
@@ -177,6 +311,20 @@ func guard(f func()) (crash string) {
 	return ""
 }
 
+// stream runs one generator.  A generator that cannot complete its own setup
+// (a legitimate issue or sign step fails, or the code under test panics
+// outside a guarded call) is an observation, reported like a refused genuine
+// credential, and the run goes on with the next generator.
+func (r *run) stream(name string, f func()) {
+	defer func() {
+		if e := recover(); e != nil {
+			r.use("setup", "stream "+name+": a legitimate step of the generator failed: "+fmt.Sprint(e),
+				Facts{Genuine: true, InTime: true, Consent: true}, false, nil, "")
+		}
+	}()
+	f()
+}
+
 func main() {
 	seed := flag.Uint64("seed", 1, "seed")
 	n := flag.Int("n", 1, "size multiplier")
@@ -185,20 +333,21 @@ func main() {
 	if r.scale < 1 {
 		r.scale = 1
 	}
-	r.corpus()
-	r.codec()
-	r.signer()
-	r.sessions()
-	r.timeTokens()
-	r.rsaTime()
-	r.challenges()
-	r.signJSON()
-	r.jwtHS()
-	r.jwtJSON()
-	r.jwtRS()
-	r.kidMatrix()
-	r.coreSign()
-	r.exchanges()
-	r.claims()
-	r.passcodes()
+	r.stream("corpus", r.corpus)
+	r.stream("codec", r.codec)
+	r.stream("signer", r.signer)
+	r.stream("sessions", r.sessions)
+	r.stream("timeTokens", r.timeTokens)
+	r.stream("rsaTime", r.rsaTime)
+	r.stream("challenges", r.challenges)
+	r.stream("signJSON", r.signJSON)
+	r.stream("jwtHS", r.jwtHS)
+	r.stream("jwtJSON", r.jwtJSON)
+	r.stream("jwtRS", r.jwtRS)
+	r.stream("kidMatrix", r.kidMatrix)
+	r.stream("coreSign", r.coreSign)
+	r.stream("exchanges", r.exchanges)
+	r.stream("claims", r.claims)
+	r.stream("passcodes", r.passcodes)
+	r.usage()
 }
